@@ -366,6 +366,7 @@ class World(object):
                 self.report("C09", "resume_releases_held", "first dispatch after resume offered %r, held back were %r"
                             % (got, exp))
         n_started = 0
+        self.terminal_at_offer = self.terminal_seen
         for t in tasks:
             n_started += self.start_task(t, st_before)
         self.finish_if_completed()
@@ -383,10 +384,10 @@ class World(object):
             self.report("C09", "no_offer_while_paused", "task %s offered while workflow is %s" % (tid, st_before))
         if L.cancel_requested:
             self.report("C10", "no_offer_after_cancel", "task %s offered after cancellation was requested" % tid)
-        if self.terminal_seen is not None and not self.accepted_rerun:
-            if not (self.terminal_seen == "failed" and (tid, route) in self.cleanup_entitled()):
+        if self.terminal_at_offer is not None and not self.accepted_rerun:
+            if not (self.terminal_at_offer == "failed" and (tid, route) in self.cleanup_entitled()):
                 self.report("C04", "no_offers_after_terminal", "task %s@%s offered after the workflow became %s"
-                            % (tid, route, self.terminal_seen))
+                            % (tid, route, self.terminal_at_offer))
         live = L.live_exec(tid, route)
         x = L.on_offer(tid, route, vals, t.get("delay"), st_before)
         new_exec = x is not live
@@ -751,6 +752,10 @@ class World(object):
                 self.bump("fault_cancel")
                 if n_inflight:
                     self.bump("probe_cancel_with_inflight")
+        elif status == "failed" and wfb != "failed" and self.status == "failed":
+            # the table lets a caller force `failed`; that is an operator decision, not an outcome
+            self.forced_failed = True
+            self.bump("forced_failed")
         elif status in ("running", "resuming"):
             if wfb in ("paused", "pausing") and self.status not in ("paused", "pausing"):
                 self.pause_req = False
@@ -986,6 +991,8 @@ class World(object):
     fault_checked = False
     last_request = None
     expect_release = None
+    terminal_at_offer = None
+    forced_failed = False
     held_back = 0
     failed_while_pausing = False
     chain = ""
@@ -1012,7 +1019,8 @@ class World(object):
                 self.report("C17", "not_stuck", "after an accepted rerun: nothing to do, workflow is %s" % st,
                             tags=tags, kf=kf)
         if st == "paused":
-            cause = self.pause_req or bool(self.pending)
+            tstat = [t.get("status") for t in self.snap["state"]["sequence"]]
+            cause = self.pause_req or bool(self.pending) or any(x in ("paused", "pending", "pausing") for x in tstat)
             if not cause:
                 self.report("C03", "paused_has_cause", "workflow paused without a pause request or pending task")
         L = self.ledger
@@ -1023,7 +1031,7 @@ class World(object):
                 pass
 
     def classify_stuck(self):
-        if self.accepted_rerun and self.status == "resuming" and self.rerun_offers_since == 0 and not self.inflight:
+        if self.accepted_rerun and self.status in ("resuming", "running") and self.rerun_offers_since == 0 and not self.inflight:
             # precise signature: a rerun request was accepted although there is no execution to
             # re-run and nothing to continue; the workflow is left `resuming` with nothing to do
             return "KF-rerun-accepted-nothing-to-do", ["rerun_default_no_candidate"]
@@ -1042,7 +1050,8 @@ class World(object):
         if self.cancel_req and st in TERMINAL_WF:
             if st == "succeeded":
                 self.report("C10", "never_succeeded", "canceled workflow ended succeeded")
-            if st == "failed" and not L.runtime_errors and not self.fault_fired and not self.failed_before_cancel:
+            if st == "failed" and not L.runtime_errors and not self.fault_fired and not self.failed_before_cancel \
+                    and not self.forced_failed:
                 kf, tags = None, []
                 self.report("C10", "not_failed_by_cancel", "cancellation ended in failed: %r"
                             % [e.get("message") for e in self.snap["errors"]][:3], tags=tags, kf=kf)
